@@ -105,10 +105,28 @@ structure ClassDef where
   props : List (Ident × Attr)
 deriving DecidableEq, Repr
 
+/-- How an entry point that accepts an OBJECT (`insertAnchor(index, anchor)`, `appendContour(contour)`,
+`Layer.insertGlyph(glyph)`, …) treats what it is handed.  Extracted from the source like the sites. -/
+inductive Adoption where
+  | adopt                                       -- `self._contours.insert(index, contour)`: stored as it is
+  | convertUnless (guard factory : String)      -- `if not isinstance(x, <guard>): x = self.<factory>(x)`, then stored
+  | rebuild (factory : String)                  -- never stored: `dest = <factory>(); dest.copyDataFromGlyph(x)`
+  | delegate (entry : String)                   -- hands the object on to another entry point
+deriving DecidableEq, Repr
+
+structure Entry where
+  id : String                 -- "<Class>.<method>"
+  owner : String
+  how : Adoption
+deriving DecidableEq, Repr
+
 structure Wiring where
   classes : List ClassDef
   sites : List Site
+  entries : List Entry := []
 deriving Repr
+
+def Wiring.entry (w : Wiring) (id : String) : Option Entry := w.entries.find? (fun e => e.id = id)
 
 def Wiring.classDef (w : Wiring) (n : CName) : Option ClassDef := w.classes.find? (fun c => c.name = n)
 def Wiring.site (w : Wiring) (id : String) : Option Site := w.sites.find? (fun s => s.id = id)
@@ -219,6 +237,14 @@ def root (w : Wiring) (cfg : Cfg) : Option Obj :=
   | none => none
   | some cd => some ⟨cd.name, .builtin "Font", runInit cd (fontKw.map fun kr => (kr.1, registered cfg kr.2))⟩
 
+/-- `C(**kwargs)` called by the USER, who hands in the registered classes himself (a free-standing
+`Contour(pointClass=font's point class)`, `Glyph(contourClass=…, pointClass=…, …)`): keyword `k` gets the
+registration of role `r`; the object itself is of class `self` (a class whose code is defcon's `c`). -/
+def freeRoot (w : Wiring) (cfg : Cfg) (c : CName) (self : Val) (kws : List (Ident × Role)) : Option Obj :=
+  match w.classDef c with
+  | none => none
+  | some cd => some ⟨cd.name, self, runInit cd (kws.map fun kr => (kr.1, registered cfg kr.2))⟩
+
 /-- follow a chain of creations starting at the font -/
 def reachFrom (w : Wiring) : Option Obj → List Site → Option Obj
   | o, [] => o
@@ -238,6 +264,47 @@ def propValue (w : Wiring) (o : Obj) (p : Ident) : Option Val :=
   match w.classDef o.cd with
   | some cd => evalCls cd o (.prop p)
   | none => none
+
+/-! ## Objects handed in by the caller -/
+
+/-- `isinstance(x, cls)` for an `x` of class `v`.  User classes are marker subclasses of a defcon class:
+a user class is a subclass of its defcon base and of itself, never of another user class. -/
+def isInstance (v cls : Val) : Bool :=
+  match v, cls with
+  | .user i b, .user j c => i == j && b == c
+  | .user _ b, .builtin c => b == c
+  | .builtin b, .builtin c => b == c
+  | .builtin _, .user _ _ => false
+
+/-- what an entry point made of the object it was handed -/
+inductive Stored where
+  | asIs                 -- the very object is stored (and handed out later)
+  | rebuilt (k : Val)    -- a new object of class `k` is stored instead
+deriving DecidableEq, Repr
+
+/-- the class of the object that is stored -/
+def Stored.cls (given : Val) : Stored → Val
+  | .asIs => given
+  | .rebuilt k => k
+
+/-- follow delegations (`appendAnchor` → `insertAnchor`, `Font.insertGlyph` → `Layer.insertGlyph`) -/
+def resolveEntry (w : Wiring) : Nat → Entry → Option Entry
+  | 0, _ => none
+  | n + 1, e =>
+    match e.how with
+    | .delegate t => (w.entry t).bind (resolveEntry w n)
+    | _ => some e
+
+/-- entry point `e` (not a delegation) of object `o` is handed an object of class `given` -/
+def store (w : Wiring) (o : Obj) (e : Entry) (given : Val) : Option Stored :=
+  match e.how with
+  | .adopt => some .asIs
+  | .convertUnless g f =>
+    match (w.site g).bind (classAt w o), (w.site f).bind (classAt w o) with
+    | some k, some n => if isInstance given k then some .asIs else some (.rebuilt n)
+    | _, _ => none
+  | .rebuild f => ((w.site f).bind (classAt w o)).map .rebuilt
+  | .delegate _ => none
 
 end Classes
 end DefconModel
